@@ -630,3 +630,10 @@ package eval
 //@   ensures [zero-divisor-raises] istype(b, int) && b.(int) == 0 ==> err != nil
 //@   ensures [non-integers-rejected] !(istype(a, int) || istype(a, *big.Int)) || !(istype(b, int) || istype(b, *big.Int)) ==> err != nil
 //@   ensures [machine-int-remainder] istype(a, int) && istype(b, int) && b.(int) != 0 ==> err == nil && istype(r, int)
+
+// C17: looking up a port by a number given by the program: any int is accepted
+// (an unknown port is nil), never an index panic.
+//@ func Frame.Port
+//@   props C17
+//@   pure
+//@   ensures (i < 0 || i >= len(fm.ports)) ==> result == nil
